@@ -66,12 +66,19 @@ _Bool L_IS_OBS_ME(L_IS_OBS_ME_a0 l) { return OBS[lk_idx(l)]; }
 static uint8_t G_thread[8]; static unsigned G_nret; static uint8_t *G_ret[4];
 THIS_THREAD_ret THIS_THREAD(void) { return (THIS_THREAD_ret)G_thread; }
 uint64_t X_pthread_self(void) { return 1; }
+#ifdef VERIF_CFG_STATS
+#define RETIRE_SIZE , RETIRE_a2 size
+#define RETIRE_CBT RETIRE_a3
+#else
+#define RETIRE_SIZE
+#define RETIRE_CBT RETIRE_a2
+#endif
 #ifdef VERIF_CFG_DEBUG
-#define RETIRE_EXTRA , RETIRE_a3 dbg_callback
+#define RETIRE_EXTRA , RETIRE_CBT dbg_callback
 #else
 #define RETIRE_EXTRA
 #endif
-void RETIRE(RETIRE_a0 self, RETIRE_a1 p, RETIRE_a2 size RETIRE_EXTRA) { __CPROVER_assert(G_nret < 4, "ledger large enough"); for (unsigned i = 0; i < 4; i++) __CPROVER_assert(!(i < G_nret && G_ret[i] == p), "C04-seq: nothing is retired twice"); if (G_nret < 4) G_ret[G_nret] = p; G_nret++; }
+void RETIRE(RETIRE_a0 self, RETIRE_a1 p RETIRE_SIZE RETIRE_EXTRA) { __CPROVER_assert(G_nret < 4, "ledger large enough"); for (unsigned i = 0; i < 4; i++) __CPROVER_assert(!(i < G_nret && G_ret[i] == p), "C04-seq: nothing is retired twice"); if (G_nret < 4) G_ret[G_nret] = p; G_nret++; }
 static _Bool retired(const uint8_t *p) { for (unsigned i = 0; i < 4; i++) if (i < G_nret && G_ret[i] == p) return 1; return 0; }
 typedef __typeof__(*(ROCS_a0)0) NODE_T;
 uint64_t IN_K; unsigned IN_shape; _Bool IN_surv_leaf;
